@@ -1,5 +1,9 @@
 import WaVerif.Model.C19
 import WaVerif.Lemmas.C19Steps
+import WaVerif.Lemmas.C19Spec
+import WaVerif.Lemmas.C19Dec
+import WaVerif.Lemmas.C19Inst
+import WaVerif.Lemmas.C19Enc
 /-!
 # C19 — property theorems (LEB128)
 
@@ -265,5 +269,241 @@ theorem decodeS64_encS (v : Int) (hlo : -(2:Int) ^ 63 ≤ v) (hhi : v < 2 ^ 63) 
   simp only [decodeS64, this, sgn]
   simp only [Except.ok.injEq, Prod.mk.injEq]; refine ⟨?_, ?_⟩ <;> simp <;> omega
 
+/-! ## signed encoder: exact value, termination shape, length (minimality) -/
+
+theorem valS_encS (v : Int) : valS (encS v) = v := by
+  induction hm : v.natAbs using Nat.strongRecOn generalizing v with
+  | _ m ih =>
+    unfold encS
+    simp only []
+    split
+    · simp only [valS]
+      split <;> omega
+    · rename_i h
+      have hrec := ih (v / 128).natAbs (by omega) (v / 128) rfl
+      cases hq : encS (v / 128) with
+      | nil => exact absurd hq (encS_ne_nil _)
+      | cons a t =>
+        rw [valS_cons2, ← hq, hrec]; omega
+
+theorem terminated_encS (v : Int) : Terminated (encS v) := by
+  induction hm : v.natAbs using Nat.strongRecOn generalizing v with
+  | _ m ih =>
+    unfold encS
+    simp only []
+    split
+    · simp only [Terminated]; omega
+    · rename_i h
+      have hrec := ih (v / 128).natAbs (by omega) (v / 128) rfl
+      cases hq : encS (v / 128) with
+      | nil => exact absurd hq (encS_ne_nil _)
+      | cons a t =>
+        rw [terminated_cons2, ← hq]; exact ⟨by omega, hrec⟩
+
+theorem bytes_encS (v : Int) : Bytes (encS v) := by
+  induction hm : v.natAbs using Nat.strongRecOn generalizing v with
+  | _ m ih =>
+    unfold encS
+    simp only []
+    split
+    · intro b hb; simp at hb; omega
+    · rename_i h
+      intro b hb
+      simp at hb
+      rcases hb with rfl | hb
+      · omega
+      · exact ih (v / 128).natAbs (by omega) (v / 128) rfl b hb
+
+/-- Minimality, signed: the encoding of `v` has at most `k` bytes exactly when `v` is a
+`7k`-bit two's-complement number (and by `valS_range` no `k`-byte sequence denotes anything else). -/
+theorem encS_length_le_iff (v : Int) (k : Nat) (hk : 1 ≤ k) :
+    (encS v).length ≤ k ↔ -(2 : Int) ^ (7 * k - 1) ≤ v ∧ v < 2 ^ (7 * k - 1) := by
+  induction hm : v.natAbs using Nat.strongRecOn generalizing v k with
+  | _ m ih =>
+    unfold encS
+    simp only []
+    split
+    · rename_i h
+      have := sixtyfour_le_pow k hk
+      simp only [List.length_cons, List.length_nil]
+      constructor
+      · intro _; omega
+      · intro _; omega
+    · rename_i h
+      have hne := encS_ne_nil (v / 128)
+      have hpos : 0 < (encS (v / 128)).length := List.length_pos_iff.mpr hne
+      simp only [List.length_cons]
+      rcases Nat.lt_or_ge k 2 with hk2 | hk2
+      · have : k = 1 := by omega
+        subst this
+        simp only [Nat.reduceMul, Nat.reduceSub, Int.reducePow]
+        omega
+      · have hrec := ih (v / 128).natAbs (by omega) (v / 128) (k - 1) (by omega) rfl
+        rw [pow_split k hk2]
+        generalize (2 : Int) ^ (7 * (k - 1) - 1) = Q at *
+        omega
+
+example : (1 : Nat) ≤ 3 ∧ (encS (-123456)).length ≤ 3 := by
+  refine ⟨by omega, ?_⟩
+  simp [encS]
+
+/-- A terminated sequence of `len` bytes denotes a `7·len`-bit two's-complement number: fewer bytes
+than `(encS v).length` cannot denote `v` (with `encS_length_le_iff`). -/
+theorem valS_range (bs : List Nat) (h : Terminated bs) :
+    -(2 : Int) ^ (7 * bs.length - 1) ≤ valS bs ∧ valS bs < 2 ^ (7 * bs.length - 1) :=
+  valS_range_of_ne_nil bs (terminated_ne_nil h)
+
+example : Terminated [0xC0, 0xBB, 0x78] ∧ valS [0xC0, 0xBB, 0x78] = -123456 := by simp [Terminated, valS]
+
+
+/-! ## decoders enforce the specification limits
+
+Soundness: whatever a decoder accepts is a terminated sequence of at most 5 (10) bytes whose EXACT
+value (`valU` / `valS` of the consumed bytes, no truncation) is the returned value and lies in the
+type's range — so over-long sequences and inconsistent unused high bits are rejected.
+Completeness: every such sequence is accepted.  No hypothesis `Bytes bs` is needed (a list element
+`≥ 256` is read as a continuation byte with payload `b % 128` by model, `Terminated` and `valU`/`valS`
+alike). -/
+
+theorem decodeU32_sound (bs : List Nat) (v n : Nat) (h : decodeU32 bs = .ok (v, n)) :
+    n ≤ 5 ∧ n ≤ bs.length ∧ Terminated (bs.take n) ∧ valU (bs.take n) = v ∧ v < 2 ^ 32 := by
+  have h' : decU32goI 0 0 bs = .ok ((v : Int), n) := liftU_eq_ok.mpr h
+  obtain ⟨j, hm, hK, hj, hT, hlo, hhi, hv⟩ := decU32goI_spec.sound bs 0 0 v n (by omega) h'
+  have : j = n := by omega
+  subst this
+  simp only [valUI, Nat.mul_zero, Nat.sub_zero, Int.pow_zero, Int.mul_one, Int.reducePow] at hhi hv
+  exact ⟨hK, hj, hT, by omega, by omega⟩
+
+example : decodeU32 [0xE5, 0x8E, 0x26, 0xFF] = .ok (624485, 3) := by
+  simp [decodeU32, decU32go]
+example : decodeU32 [0xFF, 0xFF, 0xFF, 0xFF, 0x0F, 0x01] = .ok (4294967295, 5) := by
+  simp [decodeU32, decU32go]
+
+theorem decodeU32_complete (bs : List Nat) (n : Nat) (hn : n ≤ 5) (hl : n ≤ bs.length)
+    (hT : Terminated (bs.take n)) (hv : valU (bs.take n) < 2 ^ 32) :
+    decodeU32 bs = .ok (valU (bs.take n), n) := by
+  have := decU32goI_spec.complete bs 0 0 n (by omega) (by omega) hl hT
+    (by simp only [valUI]; omega)
+    (by simp only [valUI, Nat.mul_zero, Nat.sub_zero, Int.reducePow]; omega)
+  apply liftU_eq_ok.mp
+  rw [show liftU (decodeU32 bs) = decU32goI 0 0 bs from rfl, this]
+  simp only [valUI, Nat.mul_zero, Int.pow_zero, Int.mul_one, Nat.zero_add, Except.ok.injEq, Prod.mk.injEq, and_true]
+  omega
+
+example : let bs := [0xE5, 0x8E, 0x26, 0xFF]
+    3 ≤ 5 ∧ 3 ≤ bs.length ∧ Terminated (bs.take 3) ∧ valU (bs.take 3) < 2 ^ 32 := by
+  simp [Terminated, valU]
+
+theorem decodeS32_sound (bs : List Nat) (v : Int) (n : Nat) (h : decodeS32 bs = .ok (v, n)) :
+    n ≤ 5 ∧ n ≤ bs.length ∧ Terminated (bs.take n) ∧ valS (bs.take n) = v ∧
+      -(2 : Int) ^ 31 ≤ v ∧ v < 2 ^ 31 := by
+  obtain ⟨j, hm, hK, hj, hT, hlo, hhi, hv⟩ := decS32go_spec.sound bs 0 0 v n (by omega) h
+  have : j = n := by omega
+  subst this
+  simp only [Nat.mul_zero, Nat.sub_zero, Int.pow_zero, Int.mul_one, Int.reducePow] at hlo hhi hv
+  exact ⟨hK, hj, hT, by omega, by omega, by omega⟩
+
+example : decodeS32 [0xC0, 0xBB, 0x78, 0x01] = .ok (-123456, 3) := by
+  simp [decodeS32, decS32go, toSigned]
+example : decodeS32 [0x80, 0x80, 0x80, 0x80, 0x78] = .ok (-2147483648, 5) := by
+  simp [decodeS32, decS32go, toSigned]
+
+theorem decodeS32_complete (bs : List Nat) (n : Nat) (hn : n ≤ 5) (hl : n ≤ bs.length)
+    (hT : Terminated (bs.take n)) (hlo : -(2 : Int) ^ 31 ≤ valS (bs.take n)) (hhi : valS (bs.take n) < 2 ^ 31) :
+    decodeS32 bs = .ok (valS (bs.take n), n) := by
+  have := decS32go_spec.complete bs 0 0 n (by omega) (by omega) hl hT
+    (by simp only [Nat.mul_zero, Nat.sub_zero, Int.reducePow] at hlo ⊢; omega)
+    (by simp only [Nat.mul_zero, Nat.sub_zero, Int.reducePow] at hhi ⊢; omega)
+  rw [decodeS32, this]
+  simp only [Nat.mul_zero, Int.pow_zero, Int.mul_one, Nat.zero_add, Except.ok.injEq, Prod.mk.injEq, and_true]
+  omega
+
+example : let bs := [0xC0, 0xBB, 0x78, 0x01]
+    3 ≤ 5 ∧ 3 ≤ bs.length ∧ Terminated (bs.take 3) ∧ -(2 : Int) ^ 31 ≤ valS (bs.take 3) ∧ valS (bs.take 3) < 2 ^ 31 := by
+  simp [Terminated, valS]
+
+theorem decodeS33_sound (bs : List Nat) (v : Int) (n : Nat) (h : decodeS33 bs = .ok (v, n)) :
+    n ≤ 5 ∧ n ≤ bs.length ∧ Terminated (bs.take n) ∧ valS (bs.take n) = v ∧
+      -(2 : Int) ^ 32 ≤ v ∧ v < 2 ^ 32 := by
+  rw [decodeS33_eq_fin33] at h
+  obtain ⟨j, hm, hK, hj, hT, hlo, hhi, hv⟩ := decS33go_spec.sound bs 0 0 v n (by omega) h
+  have : j = n := by omega
+  subst this
+  simp only [Nat.mul_zero, Nat.sub_zero, Int.pow_zero, Int.mul_one, Int.reducePow] at hlo hhi hv
+  exact ⟨hK, hj, hT, by omega, by omega, by omega⟩
+
+example : decodeS33 [0x80, 0x80, 0x80, 0x80, 0x70, 0x00] = .ok (-4294967296, 5) := by
+  simp [decodeS33, decS33loop]
+example : decodeS33 [0xC0, 0xBB, 0x78, 0x01] = .ok (-123456, 3) := by
+  simp [decodeS33, decS33loop]
+
+theorem decodeS33_complete (bs : List Nat) (n : Nat) (hn : n ≤ 5) (hl : n ≤ bs.length)
+    (hT : Terminated (bs.take n)) (hlo : -(2 : Int) ^ 32 ≤ valS (bs.take n)) (hhi : valS (bs.take n) < 2 ^ 32) :
+    decodeS33 bs = .ok (valS (bs.take n), n) := by
+  have := decS33go_spec.complete bs 0 0 n (by omega) (by omega) hl hT
+    (by simp only [Nat.mul_zero, Nat.sub_zero, Int.reducePow] at hlo ⊢; omega)
+    (by simp only [Nat.mul_zero, Nat.sub_zero, Int.reducePow] at hhi ⊢; omega)
+  rw [decodeS33_eq_fin33, show fin33 (decS33loop 0 0 bs) = decS33go 0 0 bs from rfl, this]
+  simp only [Nat.mul_zero, Int.pow_zero, Int.mul_one, Nat.zero_add, Except.ok.injEq, Prod.mk.injEq, and_true]
+  omega
+
+example : let bs := [0x80, 0x80, 0x80, 0x80, 0x70, 0x00]
+    5 ≤ 5 ∧ 5 ≤ bs.length ∧ Terminated (bs.take 5) ∧ -(2 : Int) ^ 32 ≤ valS (bs.take 5) ∧ valS (bs.take 5) < 2 ^ 32 := by
+  simp [Terminated, valS]
+
+theorem decodeS64_sound (bs : List Nat) (v : Int) (n : Nat) (h : decodeS64 bs = .ok (v, n)) :
+    n ≤ 10 ∧ n ≤ bs.length ∧ Terminated (bs.take n) ∧ valS (bs.take n) = v ∧
+      -(2 : Int) ^ 63 ≤ v ∧ v < 2 ^ 63 := by
+  obtain ⟨j, hm, hK, hj, hT, hlo, hhi, hv⟩ := decS64go_spec.sound bs 0 0 v n (by omega) h
+  have : j = n := by omega
+  subst this
+  simp only [Nat.mul_zero, Nat.sub_zero, Int.pow_zero, Int.mul_one, Int.reducePow] at hlo hhi hv
+  exact ⟨hK, hj, hT, by omega, by omega, by omega⟩
+
+example : decodeS64 [0x80, 0x80, 0x80, 0x80, 0x80, 0x80, 0x80, 0x80, 0x80, 0x7F, 0x55] = .ok (-9223372036854775808, 10) := by
+  simp [decodeS64, decS64go, toSigned]
+
+theorem decodeS64_complete (bs : List Nat) (n : Nat) (hn : n ≤ 10) (hl : n ≤ bs.length)
+    (hT : Terminated (bs.take n)) (hlo : -(2 : Int) ^ 63 ≤ valS (bs.take n)) (hhi : valS (bs.take n) < 2 ^ 63) :
+    decodeS64 bs = .ok (valS (bs.take n), n) := by
+  have := decS64go_spec.complete bs 0 0 n (by omega) (by omega) hl hT
+    (by simp only [Nat.mul_zero, Nat.sub_zero, Int.reducePow] at hlo ⊢; omega)
+    (by simp only [Nat.mul_zero, Nat.sub_zero, Int.reducePow] at hhi ⊢; omega)
+  rw [decodeS64, this]
+  simp only [Nat.mul_zero, Int.pow_zero, Int.mul_one, Nat.zero_add, Except.ok.injEq, Prod.mk.injEq, and_true]
+  omega
+
+example : let bs := [0x80, 0x80, 0x80, 0x80, 0x80, 0x80, 0x80, 0x80, 0x80, 0x7F, 0x55]
+    10 ≤ 10 ∧ 10 ≤ bs.length ∧ Terminated (bs.take 10) ∧ -(2 : Int) ^ 63 ≤ valS (bs.take 10) ∧ valS (bs.take 10) < 2 ^ 63 := by
+  simp [Terminated, valS]
+
+
+/-! Concrete rejections (sanity of the model's error branches): over-long, inconsistent unused bits,
+unterminated. -/
+example : decodeU32 [0xFF, 0xFF, 0xFF, 0xFF, 0x1F] = .error .overflow := by simp [decodeU32, decU32go]
+example : decodeU32 [0x80, 0x80, 0x80, 0x80, 0x80, 0x00] = .error .overflow := by simp [decodeU32, decU32go]
+example : decodeS32 [0x80, 0x80, 0x80, 0x80, 0x08] = .error .overflow := by simp [decodeS32, decS32go]
+example : decodeS32 [0xFF, 0xFF, 0xFF, 0xFF, 0x4F] = .error .overflow := by simp [decodeS32, decS32go]
+example : decodeS32 [0x80, 0x80, 0x80, 0x80, 0x80, 0x00] = .error .overflow := by simp [decodeS32, decS32go]
+example : decodeS33 [0x80, 0x80, 0x80, 0x80, 0x10] = .error .overflow := by simp [decodeS33, decS33loop]
+example : decodeS33 [0x80, 0x80, 0x80, 0x80, 0x80, 0x00] = .error .overflow := by simp [decodeS33, decS33loop]
+example : decodeS64 [0x80, 0x80, 0x80, 0x80, 0x80, 0x80, 0x80, 0x80, 0x80, 0x01] = .error .overflow := by
+  simp [decodeS64, decS64go]
+example : decodeS64 [0x80, 0x80] = .error .eof := by simp [decodeS64, decS64go]
+
+/-- Round trip, signed 33-bit (`DecodeInt33AsInt64`): every value in range, any trailing bytes;
+a corollary of completeness and the encoder theorems. -/
+theorem decodeS33_encS (v : Int) (hlo : -(2 : Int) ^ 32 ≤ v) (hhi : v < 2 ^ 32) (rest : List Nat) :
+    decodeS33 (encS v ++ rest) = .ok (v, (encS v).length) := by
+  have ht : (encS v ++ rest).take (encS v).length = encS v := List.take_left' rfl
+  have hlen : (encS v).length ≤ 5 :=
+    (encS_length_le_iff v 5 (by omega)).mpr
+      ⟨by simp only [Nat.reduceMul, Nat.reduceSub, Int.reducePow] at hlo ⊢; omega,
+       by simp only [Nat.reduceMul, Nat.reduceSub, Int.reducePow] at hhi ⊢; omega⟩
+  have := decodeS33_complete (encS v ++ rest) (encS v).length hlen (by simp)
+    (by rw [ht]; exact terminated_encS v) (by rw [ht, valS_encS]; exact hlo) (by rw [ht, valS_encS]; exact hhi)
+  rw [this, ht, valS_encS]
+
+example : -(2 : Int) ^ 32 ≤ -4294967296 ∧ (-4294967296 : Int) < 2 ^ 32 := by omega
 
 end WaVerif.C19
